@@ -1,6 +1,6 @@
 #!/bin/bash
 # tools/run_all.sh [tier] : runs every property's check once and prints one summary line each
-cd /verif
+cd "$(dirname "$0")/.."
 tier=${1:-quick}
 for i in $(seq -w 1 20); do
   out=$(./check C$i $tier 2>&1); rc=$?
